@@ -201,6 +201,7 @@ def verify_case(unit_name, case, prop=None, tier="quick", opts=None):
         res["status"] = "undecided"
         res["undecided"].append(dict(name="%s[%s]" % (unit_name, res["case_id"]), reason="unsupported: %s" % (ex,),
                                      where=_where(ex)))
+        _native_probe(unit, unit_name, case, prop, decls, res, opts, tier)
         res["wall"] = time.time() - t_start
         return res
     res["paths"] = len(paths)
@@ -272,17 +273,26 @@ def verify_case(unit_name, case, prop=None, tier="quick", opts=None):
                 except EngineSignal as ex:
                     nout = None
                     res["notes"].append("native witness not evaluable: %s" % (ex,))
+                finally:
+                    # a native run must not leave library state behind for the next one (each witness speaks about
+                    # one call from the initial state; state carried between calls is the subject of other units)
+                    guard.restore(guard.diff())
                 if nout is not None:
                     res["witnesses_checked"] += 1
-                    if _observe_kind(nout) != _observe_kind(out):
+                    # CPython is the ground truth: a clause that is false on the real code for these inputs is a
+                    # violation whatever the symbolic verdict was (typically a callee that no longer satisfies the
+                    # contract the modular proof used for it); it is replayed like any other counterexample
+                    false_natively = [(p, n) for p, n, b in nclauses if (prop is None or p == prop) and not isinstance(b, Undecided) and not b]
+                    for p, n in false_natively:
+                        name = "%s/%s[%s]/%s" % (p, unit_name, res["case_id"], n)
+                        res["violations"].append(dict(name=name, prop=p, path=pi, verdict="failed", backend="native-witness", inputs=inp,
+                                                      outcome=nout.describe(), time=0))
+                        res["obligations"].append(dict(name=name + " (native witness)", prop=p, path=pi, verdict="failed", backend="native-witness", time=0, outcome=nout.describe()))
+                        res["notes"].append("clause %s proved on the modular / symbolic level but false on the real code, inputs=%s" % (n, json.dumps(inp)[:300]))
+                    if _observe_kind(nout) != _observe_kind(out) and not false_natively:
                         res["status"] = "error"
                         res["notes"].append("CROSS-CHECK: interpreter says %s, CPython says %s for %s inputs=%s" % (
                             out.describe(), nout.describe(), unit_name, json.dumps(inp)[:400]))
-                    else:
-                        for p, n, b in nclauses:
-                            if (prop is None or p == prop or p == "*") and not b:
-                                res["status"] = "error"
-                                res["notes"].append("CROSS-CHECK: clause %s proved symbolically but false natively, inputs=%s" % (n, json.dumps(inp)[:400]))
     if canary_passed:
         # a unit-specific canary is a clause that is false *if the contract holds*; when the same case reports
         # violations the premise is gone and the passing canary is only noted, otherwise the run is not trusted
@@ -307,6 +317,99 @@ def verify_case(unit_name, case, prop=None, tier="quick", opts=None):
         res["notes"].append("no obligations for this property in this case")
     res["wall"] = time.time() - t_start
     return res
+
+
+def _shrink(unit, case, inp, p, n, alarm):
+    """greedy shrinking of a native counterexample: every integer input is replaced by 0 / 1 / a small value as long
+    as the same clause stays false (keeps replays fast and readable)"""
+    import signal
+
+    def still_fails(cand):
+        old_handler = signal.signal(signal.SIGALRM, alarm)
+        signal.setitimer(signal.ITIMER_REAL, 1.0)
+        try:
+            nout, ncl, _ = run_native(unit, case, cand)
+            return nout is not None and any(pp == p and nn == n and not isinstance(b, Undecided) and not b for pp, nn, b in ncl)
+        except BaseException:
+            return False
+        finally:
+            signal.setitimer(signal.ITIMER_REAL, 0)
+            signal.signal(signal.SIGALRM, old_handler)
+
+    cur = dict(inp)
+    budget = 40
+    for k in sorted(cur):
+        if isinstance(cur[k], bool) or not isinstance(cur[k], int) or cur[k] in (0, 1):
+            continue
+        for small in (0, 1, 2, cur[k] & 0xFF, cur[k] & 0xFFFF):
+            if budget <= 0 or small == cur[k]:
+                continue
+            budget -= 1
+            cand = dict(cur, **{k: small})
+            if still_fails(cand):
+                cur = cand
+                break
+    return cur
+
+
+def _native_probe(unit, unit_name, case, prop, decls, res, opts, tier):
+    """the symbolic execution of this case is not available (unsupported construct): the case stays undecided, but
+    the contract is still evaluated natively on boundary and pseudo-random inputs to LOOK FOR a counterexample.  A
+    clause that is false on the real code is a violation (it is replayed like any other); finding none proves
+    nothing and is not counted."""
+    from .unit import probe_inputs
+
+    if not getattr(unit, "witness", True) or opts.get("no_probe"):
+        return
+    k = 24 if tier == "quick" else 200
+    try:
+        cands = probe_inputs(decls, random.Random(opts.get("seed", 0) * 7919 + 17), k)
+    except EngineSignal:
+        return
+    seen = set()
+    tried = 0
+    import signal
+
+    class _ProbeTimeout(BaseException):
+        pass
+
+    def _alarm(signum, frame):
+        raise _ProbeTimeout()
+
+    t_probe = time.time()
+    timeouts = 0
+    for inp in cands:
+        if time.time() - t_probe > (6 if tier == "quick" else 60) or timeouts >= 2:
+            break
+        old_handler = signal.signal(signal.SIGALRM, _alarm)
+        signal.setitimer(signal.ITIMER_REAL, 1.5)
+        try:
+            nout, nclauses, _ = run_native(unit, case, inp)
+        except EngineSignal:
+            return
+        except (_ProbeTimeout, MemoryError):
+            timeouts += 1  # e.g. a transfer of gigabytes: this input is not evaluable here
+            continue
+        except BaseException as ex:  # contract code failing natively on odd inputs: not evidence of anything
+            res["notes"].append("native probe: contract code raised %r" % (ex,))
+            return
+        finally:
+            signal.setitimer(signal.ITIMER_REAL, 0)
+            signal.signal(signal.SIGALRM, old_handler)
+        if nout is None:
+            continue  # precondition not met
+        if nout.kind == "raise" and isinstance(nout.exc, (MemoryError, OverflowError, RecursionError)):
+            continue  # resource limits of this machine, not behaviour of the library
+        tried += 1
+        for p, n, b in nclauses:
+            if (prop is None or p == prop) and not isinstance(b, Undecided) and not b and n not in seen:
+                seen.add(n)
+                inp = _shrink(unit, case, inp, p, n, _alarm)
+                name = "%s/%s[%s]/%s" % (p, unit_name, res["case_id"], n)
+                res["violations"].append(dict(name=name, prop=p, path=-1, verdict="failed", backend="native-probe", inputs=_jsonable(inp),
+                                              outcome=nout.describe(), time=0))
+                res["obligations"].append(dict(name=name, prop=p, path=-1, verdict="failed", backend="native-probe", time=0, outcome=nout.describe()))
+    res["notes"].append("native probe after unsupported construct: %d inputs tried, %d clauses refuted" % (tried, len(seen)))
 
 
 def frame_clauses(unit, ctx, guard, diffs):
